@@ -159,7 +159,7 @@ pub fn generate(g: &mut G, index: u64) -> Scenario {
             ops.push(Op::Sleep(period * g.range(3, 5) + period / 2));
             ops.push(Op::Call { h: 0, id: g.id(), work: vec![] });
         }
-        let shapes: Vec<u32> = if owning { vec![0, 1, 2, 3, 4, 5, 6, 8, 9, 10, 11, 12] } else if restartable { vec![0, 5, 6, 7] } else { vec![0, 5, 7] };
+        let shapes: Vec<u32> = if owning { vec![0, 1, 2, 3, 4, 5, 6, 8, 9, 10, 11, 12, 13, 14] } else if restartable { vec![0, 5, 6, 7] } else { vec![0, 5, 7] };
         match g.pick(&shapes) {
             0 => {
                 ops.push(Op::Stop { h: 0 });
@@ -201,6 +201,26 @@ pub fn generate(g: &mut G, index: u64) -> Scenario {
                 ops.push(Op::Sleep(3));
                 ops.push(Op::Upgrade { h: 1, to: 2 });
                 ops.push(Op::QueryStopped { h: 1 });
+            }
+            14 => {
+                // a join future created before the owning address is detached, awaited after the
+                // actor was stopped through the detached address
+                ops.push(Op::JoinStart { h: 0 });
+                ops.push(Op::Detach { h: 0, to: 1 });
+                ops.push(Op::Send { h: 1, id: g.id(), work: vec![] });
+                ops.push(Op::Stop { h: 1 });
+                ops.push(Op::JoinFinish);
+            }
+            13 => {
+                // a join future that had claimed the task and is dropped right after the task
+                // has finished (woken, not polled again) takes the value with it: the next join
+                // yields None on every runtime
+                ops.push(Op::JoinStart { h: 0 });
+                ops.push(Op::JoinPoll);
+                ops.push(Op::Stop { h: 0 });
+                ops.push(Op::Await { h: 0, on_clone: true });
+                ops.push(Op::JoinDiscard);
+                ops.push(Op::Join { h: 0 });
             }
             12 => {
                 // two joins pending at the same time in different tasks both resolve
